@@ -129,9 +129,16 @@ crypt_sha1crypt_rn (const char *phrase, size_t phr_size,
     }
 
   setting += strlen (magic);
-  /* get the iteration count */
+  /* get the iteration count: decimal digits only (strtoul would also
+     accept leading white space and a sign, turning "-1" into ULONG_MAX),
+     and no more than the documented maximum of 32 bits */
+  if (*setting < '0' || *setting > '9')
+    {
+      errno = EINVAL;
+      return;  /* invalid input */
+    }
   iterations = (unsigned long)strtoul (setting, (char **)&ep, 10);
-  if (*ep != '$')
+  if (*ep != '$' || iterations > UINT32_MAX)
     {
       errno = EINVAL;
       return;  /* invalid input */
